@@ -7,6 +7,7 @@ CONSTANTS
   Offs <- OffsGen
   Rtds = {1, 2, 3, 4}
   DistinctOnly = FALSE
+  Clk0s = {0, 1}
   MaxEv = 5
   FilterAverage = 20
 VIEW View
